@@ -32,6 +32,11 @@ inductive Scalar where
   | neg (n : Nat)
   | float (s : String)
   | bool (b : Bool)
+  /-- `sizeof(t<uint>(1u))` for a function template `t`: a constant expression with the value 4 whose type check
+      instantiates `t` (the instantiated function stays in the module) -/
+  | sizeofInst (template : String)
+  /-- a well-typed expression that is not a constant expression (a member of a groupshared variable) -/
+  | nonConst
   /-- `{ }` used where a scalar is expected -/
   | emptyAgg
   deriving DecidableEq, Repr
@@ -53,6 +58,9 @@ structure FnDecl where
   isTemplate : Bool
   hasBody : Bool
   threads : Option (Nat × Nat × Nat)
+  /-- the function carries a `numthreads` attribute one of whose arguments the constant evaluator can not turn into a
+      value of the u32 range (not a constant expression, negative, a float, 2^32 or more); `threads` is `none` then -/
+  badThreads : Bool := false
   deriving DecidableEq, Repr
 
 structure PipeDef where
@@ -70,6 +78,9 @@ inductive ErrKind where
   | requiresGraphics | requiresString | requiresInteger | argumentUnknown
   /-- `error: string may not be used` from the expression checker (no location) -/
   | stringNotUsable
+  /-- `error: state requires an integer argument` without a location: `add_stage` could not evaluate the `numthreads`
+      attribute of the entry function (`SourceLocation::UNKNOWN`) -/
+  | threadsNotInteger
   /-- outside the model: an identifier evaluated as an integer expression -/
   | unsupported
   deriving DecidableEq, Repr
@@ -118,11 +129,13 @@ structure IrPipe where
 def sameFn (f g : FnDecl) : Bool := f.name == g.name && f.shape == g.shape
 
 /-- `void f();` followed by `void f() {..}` is one registry entry that gains its body (and attributes) later;
-    a different signature is a new entry -/
+    a different signature is a new entry.  The attributes `add_stage` reads are those of the *implementation*
+    (`get_function_implementation(id).attributes`): a `numthreads` written on a prototype only is not seen, and a
+    prototype repeated after the definition changes nothing. -/
 def registerFn (reg : List FnDecl) (f : FnDecl) : List FnDecl :=
   if reg.any (sameFn f) then
     reg.map fun g =>
-      if sameFn f g && f.hasBody then { g with hasBody := true, threads := f.threads } else g
+      if sameFn f g && f.hasBody then { g with hasBody := true, threads := f.threads, badThreads := f.badThreads } else g
   else reg ++ [f]
 
 def stepReg (reg : List FnDecl) : Item → List FnDecl
@@ -171,6 +184,8 @@ def extractUint32 (s : Scalar) (path : Nat) : Except Err Nat :=
   match s with
   | .num n => if n ≤ 4294967295 then .ok n else .error ⟨.requiresInteger, path⟩
   | .bool b => .ok (if b then 1 else 0)
+  | .sizeofInst _ => .ok 4
+  | .nonConst => .error ⟨.requiresInteger, path⟩
   | .neg _ => .error ⟨.requiresInteger, path⟩
   | .float _ => .error ⟨.requiresInteger, path⟩
   | .emptyAgg => .error ⟨.requiresInteger, path⟩
@@ -264,7 +279,10 @@ def addStage (reg : List FnDecl) (stage : Stage) (v : Val) (path : Nat) : Except
   match v with
   | .single (.ident name) =>
     match lookupEntry reg name with
-    | some (i, f) => .ok { stage := stage, entry := i, entryName := f.name, tgs := f.threads }
+    | some (i, f) =>
+      -- the attribute loop over the implementation's attributes: every `numthreads` argument must evaluate to a u32
+      if f.badThreads then .error ⟨.threadsNotInteger, 0⟩
+      else .ok { stage := stage, entry := i, entryName := f.name, tgs := f.threads }
     | none => .error ⟨.entryUnknown, path⟩
   | _ => .error ⟨.entryUnknown, path⟩
 
@@ -409,6 +427,29 @@ def pipeDefsFrom : List FnDecl → List Item → List (List FnDecl × PipeDef)
   | reg, .pipe d :: rest => (reg, d) :: pipeDefsFrom reg rest
 
 def pipeDefs (items : List Item) : List (List FnDecl × PipeDef) := pipeDefsFrom [] items
+
+/-! ## what the property values of a block leave behind in the module
+
+`extract_uint32` hands the value to `parse_expr` **on the live typer context**: a value that calls a function template
+instantiates it, and the instantiated function is part of the module every pipeline is built from. -/
+
+def Scalar.instantiates : Scalar → List String
+  | .sizeofInst t => [t]
+  | _ => []
+
+def Val.instantiates : Val → List String
+  | .single s => s.instantiates
+  | .agg ps => ps.flatMap fun p => p.2.instantiates
+
+/-- the function templates the property values of a block instantiate (for a block of an accepted file: every value is
+    evaluated; such a value is only accepted where an integer is expected) -/
+def instantiatedBy (d : PipeDef) : List String := d.props.flatMap fun p => p.2.instantiates
+
+/-- the template instantiations the Pipeline blocks of an accepted file add to the module, in source order -/
+def instancesOf : List Item → List String
+  | [] => []
+  | .func _ :: rest => instancesOf rest
+  | .pipe d :: rest => instantiatedBy d ++ instancesOf rest
 
 /-- delete the Pipeline blocks whose name is not kept; everything else stays -/
 def deletePipes (keep : String → Bool) (items : List Item) : List Item :=
